@@ -10,6 +10,7 @@ import (
 	"golang.org/x/tools/go/packages"
 	"sort"
 	"strings"
+	"verif/checker/internal/sym"
 
 	"verif/checker/internal/dtab"
 	"verif/checker/internal/load"
@@ -390,6 +391,35 @@ func (c *Ctx) httpDisciplineIn(info *types.Info, fd *ast.FuncDecl, site string, 
 				last := r.Results[len(r.Results)-1]
 				if id, ok := last.(*ast.Ident); !ok || id.Name != "nil" {
 					status = true
+					// which statuses take the error branch: 200 must not, every status outside 2xx must
+					m := dtab.FromStmts(info, []ast.Stmt{&ast.ReturnStmt{Return: is.Cond.Pos(), Results: []ast.Expr{is.Cond}}}, nil)
+					var reads []string
+					for _, rd := range m.Reads {
+						if strings.HasSuffix(rd, "StatusCode") {
+							reads = append(reads, rd)
+						}
+					}
+					if len(m.Unsupported) == 0 && len(m.Paths) == 1 && len(m.Paths[0].Ret) == 1 && len(reads) == 1 {
+						for _, k := range []int64{100, 199, 200, 300, 301, 400, 401, 404, 429, 500, 503} {
+							v, decided := dtab.EvalBool(m.Paths[0].Ret[0], map[string]sym.Expr{reads[0]: sym.N(k)}, numOracle)
+							good := decided && v == (k != 200)
+							run.Oblige(good)
+							if !good {
+								what := "is treated as a success"
+								if k == 200 {
+									what = "is treated as a failure"
+								}
+								if !decided {
+									what = "is undecided (fails closed)"
+								}
+								c.violate("http/status", site, fmt.Sprintf("status %d", k), is.Pos(), fmt.Sprintf("HTTP status %d %s by `%s`: a non-success status must surface as an error before the body is decoded, not as an empty success", k, what, exprString(is.Cond)))
+								break
+							}
+						}
+					} else {
+						run.Oblige(false)
+						c.violate("http/status", site, "status condition", is.Pos(), "the status check `"+exprString(is.Cond)+"` is not a comparison of the response's StatusCode alone (undecided, fails closed)")
+					}
 				}
 			}
 		}
@@ -499,6 +529,7 @@ func CheckC10(c *Ctx) {
 		}
 	}
 	c.freshElements("asset")
+	c.repositoryValues()
 	c.assetNameCodec()
 	c.factoryPurity("asset", "NewRepository", "repository/factory")
 	// an Append that has returned stays visible: the in-memory repository updates its map under the
